@@ -17,6 +17,10 @@ VwTC = typing.TypeVar("VwTC", int, str)
 import typing_extensions
 VwTE = typing_extensions.TypeVar("VwTE")                    # the back-ported factory: a free TypeVar like VwT
 VwTED = typing_extensions.TypeVar("VwTED", default=int)      # PEP 696 default
+# an opaque callable with an explicit parameter list, reached through wrappers
+VwTBC = typing.TypeVar("VwTBC", bound=typing.Callable[[int], str])
+VwNC = typing.NewType("VwNC", typing.Callable[[int], str])
+VwAC = typing.TypeAliasType("VwAC", typing.Callable[[int, str], None])
 
 class VwG(typing.Generic[VwT]):
     x: VwT
@@ -84,6 +88,13 @@ class VwReadingsS:
     history: tuple[str | bytes, ...] = ()
 
 @dataclasses.dataclass
+class VwHook:
+    name: str = ""
+    on_event: VwTBC = str
+    also: VwAC = print
+    registry: typing.ClassVar[typing.Callable[[int], str]] = str
+
+@dataclasses.dataclass
 class VwParent:
     name: str
     children: "list[VwChild]" = dataclasses.field(default_factory=list)
@@ -118,6 +129,8 @@ RAW = [
     ("VwG[int]", False), ("VwG", False), ("VwGD[str]", False), ("VwGD", False), ("VwNoAnn", False), ("VwEmpty", False), ("VwTwoVar", False),
     ("tuple[list[vwx.VwXOwner], vwx.VwXOwner]", False), ("dict[str, tuple[vwx.VwXPayee, list[vwx.VwXPayee]]]", False),
     ("typing.Union[list[vwx.VwXPayee], vwx.VwXPayee]", False), ("tuple[vwx.VwXSelf, list[vwx.VwXSelf], vwx.VwXOwner]", False), ("vwx.VwXOwner", False),
+    ("VwTBC", True), ("VwNC", True), ("VwAC", True), ("list[VwTBC]", False), ("typing.Optional[VwNC]", False), ("dict[str, VwAC]", False), ("VwHook", False),
+    ("typing.ClassVar[typing.Callable[[int], str]]", True),
     ("VwReadings", False), ("VwReadingsT", False), ("VwReadingsS", False), ("list[VwReadings]", False),
     ("VwTwoDepths", False), ("VwTwoDepthsT", False), ("list[VwScale | None]", False), ("dict[str, VwTwoDepthsT]", False),
     ("VwAnyFields", False), ("VwScale", False), ("list[VwScale]", False), ("VwParent", False), ("VwChild", False), ("VwSelf", False), ("list[VwParent]", False), ("dict[str, VwSelf]", False),
